@@ -87,7 +87,8 @@ def run_c17(tier):
     if len(behs) != nops ** depth:
         raise ToolError("expected %d behaviours, TLC emitted %d" % (nops ** depth, len(behs)))
     # longer behaviours (depth 12) by simulation, larger name alphabet
-    sim_names = ST_NAMES + ["1073741823", "f1000", "f2", "2", "00", "f00", "-1", "ff1", "1f", "f+1"]
+    sim_names = ST_NAMES + ["1073741823", "f1000", "f2", "2", "00", "f00", "-1", "ff1", "1f", "f+1",
+                            "1073741824", "4294967295", "4294967296", "f1073741823", "f1073741824", "f4294967295", "99999999999999999999"]
     sdefs = {"MCNames": tla_set([list(n) for n in sim_names]), "MCNums": tla_set([0, 1, 2, 7, 1073741823]), "MCDepth": 12}
     nsim = 300 if tier == "quick" else 5000
     slog, sst = run_tlc_root("C17_sim", "MC_SlotTable", sdefs, cfg, workers=1,
